@@ -57,6 +57,16 @@ CHECKS.update({
          "canonical text = what the flag helpers' String() prints and strconv for scalars; texts that are canonical for no value (duplicate keys, unquotable literals) and typed map[K]V round-trips are recorded, not judged",
          "DESIGN.md section 4 C15; notes/C15-SENSITIVITY.md"),
 })
+CHECKS.update({
+ 'C01': ("runtime reference-model monitor: the real compose (build-tagged export) on seeded reflect.StructOf config types, layers materialised by field name, compared leaf by leaf with an independent reference stack; metamorphic empty-layer check; static corpus through dials.Config",
+         "Tens of thousands (quick) to millions (thorough) of seeded struct types (48 leaf kinds incl. named types, user-declared pointers, slices/arrays of structs, text-unmarshalables; nested/pointer/embedded structs; skipped fields in any position), defaults, and 1-5 layers with seeded set/unset patterns are stacked by the real overlay code and compared with a strict differ against an ~80-line reference stack over leaf paths; result type, untouched defaults and insensitivity to an inserted all-unset layer are checked on every case; a static corpus covers genuinely unexported defaulted fields and embedded named structs through the public API.",
+         "trusts the reference stack (gen/spec.go) and the strict differ; interface-typed fields are outside the quantifier and not generated",
+         "DESIGN.md section 4 C01"),
+ 'C02': ("address-level alias walker + input-freeze clones + write-through mutation probe on the real compose, and the Go race detector as aliasing oracle (scribble version k while reading version k+1 and the inputs) on real Dials re-stack histories",
+         "Results of stacking the same inputs twice, the defaults and every source value must be pairwise disjoint (pointer targets, slice backing arrays including spare capacity, map headers, through exported fields) and inputs must equal their pre-call clones, also after a sentinel is written through everything reachable from one result; on real Dials instances every config obtained from View/ViewVersion/Events/OnNewConfig/registered callbacks over 3-12 re-stacks is collected and checked pairwise and against every value a source handed over, then version k is scribbled while version k+1 and the inputs are read concurrently under -race (any report is a violation).",
+         "memory reachable only through unexported fields is not walked; sharing between two leaves inside one version (mirroring input sharing) is allowed",
+         "DESIGN.md section 4 C02"),
+})
 NOT_YET = "check not yet built in this session (planned in DESIGN.md section 4; the technique applies)"
 
 def main():
